@@ -27,6 +27,25 @@ the terminal type exported by urwid's Terminal widget, TERM=linux, implements):
     that reset the flag; modelled as clearing (recorded as a reading in the C15 report).
   * DECSTBM with bottom > screen height (xterm clamps, Linux ignores), IL/DL with the cursor above the
     scrolling region (DEC/xterm ignore, Linux acts on cursor..bottom): Ambiguous.
+
+RESIZE (`VT100.resize`; the statement quantifies over "any interleaving of terminal resizes" and demands "a grid
+of exactly height rows by width cells" whose contents equal the reference's).  A hardware VT100 cannot be resized,
+so this is the reading already used by C15/scrollback-kept and by the deductive contract of TermCanvas.resize, and
+what xterm and the Linux console do where they agree: columns are cut / added on the right; when the height
+shrinks the top rows leave through the top (they are "scrolled off the top": kept, in order); when it grows the
+rows most recently scrolled off the top come back on top, in order, cut / padded to the width, and when there are
+none left blank rows are added at the bottom; the scrolling region becomes the whole screen (xterm, Linux);
+the cursor keeps its screen coordinates, clamped into the new grid.  Every row of the grid is its own h x w
+cells: a later write to one cell changes that cell only.  The *colours* of cells created by a resize are not
+determined by anything in the statement: wildcard ANY for both.  A pending last-column flag becomes unknown.
+
+NON-COLOUR RENDITIONS.  SGR 1/4/5/7 (the VT100's own: bold, underline, blink, negative image) and 24/25/27 never
+change the selected colours; they are tracked so that "a later SGR leaves the colours selected earlier unchanged"
+is checked in their presence too, and a printed cell carries exactly the renditions in force (erased blanks: not
+constrained while one is in force).  One legitimate variant: terminals of the family show bold + one of the 8
+basic colours either as that colour or as its bright twin (Linux console, xterm boldColors), so the foreground of
+a cell printed in that state is ("bold-basic", n): n or n + 8 (`colour_matches`); bright, 256-colour, 24-bit and default foregrounds are not
+affected by bold in any of them.  SGR 22 (ECMA-48, not VT100) stays outside the subset.
 """
 from __future__ import annotations
 
@@ -49,6 +68,36 @@ def rgb(r, g, b):
     return ("rgb", (r << 16) | (g << 8) | b)
 
 
+_CUBE = (0, 95, 135, 175, 215, 255)
+
+
+def denoted(colour):
+    """The colour a colour value denotes, for comparing an observed colour with the reference's.  Palette entries
+    0..15 are the terminal's (theme-dependent) ANSI colours and denote themselves.  Entries 16..255 are defined by
+    xterm's 256-colour extension as fixed values - a 6x6x6 cube with steps 0,95,135,175,215,255 (16 + 36r + 6g + b)
+    and 24 greys 8 + 10k (232 + k) - so ("idx", n >= 16) and ("rgb", that value) denote the same colour."""
+    if colour is None or colour is ANY or colour[0] != "idx" or colour[1] < 16:
+        return colour
+    n = colour[1] - 16
+    if n < 216:
+        return rgb(_CUBE[n // 36], _CUBE[n // 6 % 6], _CUBE[n % 6])
+    v = 8 + 10 * (n - 216)
+    return rgb(v, v, v)
+
+
+def colour_matches(got, want):
+    """Does the observed colour `got` (None | ("idx", n) | ("rgb", v)) satisfy the reference's `want`?"""
+    if want is ANY:
+        return True
+    if want is not None and want[0] == "bold-basic":
+        return got in (idx(want[1]), idx(want[1] + 8))
+    return denoted(got) == denoted(want)
+
+
+_STYLE_ON = {1: "bold", 4: "underline", 5: "blink", 7: "standout"}
+_STYLE_OFF = {24: "underline", 25: "blink", 27: "standout"}
+
+
 class VT100:
     def __init__(self, width, height, margins_stop_cuu_cud=False, il_dl_carriage_return=False):
         assert width >= 1 and height >= 1
@@ -57,7 +106,8 @@ class VT100:
         self.opt_il_dl_cr = il_dl_carriage_return
         self.fg = None  # None = default colour
         self.bg = None
-        self.grid = [[(" ", ANY, None) for _ in range(width)] for _ in range(height)]
+        self.styles = frozenset()  # of "bold", "underline", "blink", "standout" (negative image)
+        self.grid = [[(" ", ANY, None, frozenset()) for _ in range(width)] for _ in range(height)]
         self.x = self.y = 0
         self.wrap_pending = False  # True / False / None (unknown)
         self.top, self.bottom = 0, height - 1  # scrolling region, inclusive, 0-based
@@ -69,7 +119,7 @@ class VT100:
 
     # ------------------------------------------------------------------ helpers
     def _blank(self):
-        return (" ", ANY, self.bg)
+        return (" ", ANY, self.bg, ANY if self.styles else frozenset())
 
     def _blank_row(self):
         return [self._blank() for _ in range(self.w)]
@@ -110,7 +160,10 @@ class VT100:
             self.x = 0
             self._index()
             self.wrap_pending = False
-        self.grid[self.y][self.x] = (ch, self.fg, self.bg)
+        fg = self.fg
+        if "bold" in self.styles and fg is not None and fg[0] == "idx" and fg[1] < 8:
+            fg = ("bold-basic", fg[1])  # bold + one of the 8 basic colours: that colour or its bright twin (legitimate variants)
+        self.grid[self.y][self.x] = (ch, fg, self.bg, self.styles)
         if self.x == self.w - 1:
             self.wrap_pending = True
         else:
@@ -259,7 +312,7 @@ class VT100:
                 self.top, self.bottom = top - 1, bot - 1
                 self.x = self.y = 0
                 self.wrap_pending = False
-        elif final == "m":  # SGR (colours only)
+        elif final == "m":  # SGR (colours; underline / blink / negative image)
             self._sgr([p or 0 for p in params])
         elif final == "n":  # DSR
             if params[0] == 5:
@@ -285,6 +338,11 @@ class VT100:
             p = ps[i]
             if p == 0:
                 self.fg = self.bg = None
+                self.styles = frozenset()
+            elif p in _STYLE_ON:
+                self.styles = self.styles | {_STYLE_ON[p]}
+            elif p in _STYLE_OFF:
+                self.styles = self.styles - {_STYLE_OFF[p]}
             elif 30 <= p <= 37:
                 self.fg = idx(p - 30)
             elif 40 <= p <= 47:
@@ -340,6 +398,30 @@ class VT100:
                     self.csi(self._params, chr(b))
                 else:
                     raise OutOfSubset("control or intermediate byte inside CSI")
+
+    # ------------------------------------------------------------------ resize (see the module docstring)
+    def resize(self, width, height):
+        assert width >= 1 and height >= 1
+
+        def fit(row):
+            return row[:width] + [(" ", ANY, ANY, ANY) for _ in range(width - len(row))]
+
+        self.grid = [fit(row) for row in self.grid]
+        self.w = width
+        if height < self.h:
+            for _ in range(self.h - height):
+                self.scrolled_off_top.append(self.grid.pop(0))
+        else:
+            for _ in range(height - self.h):
+                if self.scrolled_off_top:
+                    self.grid.insert(0, fit(self.scrolled_off_top.pop()))
+                else:
+                    self.grid.append(fit([]))
+        self.h = height
+        self.top, self.bottom = 0, height - 1
+        self.tabstops = set(range(8, width, 8))  # the subset has no way to set or clear a stop
+        self.x, self.y = min(self.x, width - 1), min(self.y, height - 1)
+        self._unknown_if_pending()
 
     # ------------------------------------------------------------------ observation
     def cursor(self):
